@@ -58,7 +58,7 @@ def obligations(tier):
                    bounds="hash string of 10 hex digits; C/JS/MATLAB fully symbolic; Python printer with a 3-character symbolic window sliding over the string (.upper() of a fully symbolic string does not finish)",
                    symbolic="the hex digits of the hash"),
         Obligation("senders_stamp_the_hash", H, "h_stamp", [{}], cond_timeout=120, flags=("nofmt",), reach="h_stamp_reach", encoded=ENC,
-                   bounds="one send_message / send_signal", symbolic="type_hash (uint32), signal type (int32), message or signal"),
+                   bounds="two consecutive sends of one client, each a message or a bare signal (headers snapshotted at send time)", symbolic="type_hash (uint32), signal type (int32), message or signal"),
     ]
 
 
